@@ -105,7 +105,15 @@ def check_steps(run: Run, prog: Program, drops_round: bool, total_rule: str = "C
                 run.check(not touched, "C13.NAN", fn.qual, "OpenParen.apply",
                           "OpenParen.apply manipulates the stack", node=fn.node, file=fn.file)
             continue
-        k = arity_of(fn, prog)
+        try:
+            k = arity_of(fn, prog)
+        except AnalysisError as exc:
+            if "of None" in str(exc) or "None," in str(exc):
+                run.violation(total_rule, fn.qual, f"{cls.name}.apply",
+                              f"apply() can compare or combine a stack value with None ({exc}): a TypeError that makes "
+                              "FormulaEngine._run drop the round", node=fn.node, file=fn.file)
+                continue
+            raise
         names = ["a", "b", "c"][:k]
         # --- all finite: totality and stack effect
         scenarios: list[tuple[str, list[Any]]] = []
@@ -124,7 +132,16 @@ def check_steps(run: Run, prog: Program, drops_round: bool, total_rule: str = "C
                 stacks.append(st)
                 return {"self": Obj("self"), param: st}
 
-            outs = interp.explore(fn.node, make_args)
+            try:
+                outs = interp.explore(fn.node, make_args)
+            except AnalysisError as exc:
+                if "of None" in str(exc) or "None," in str(exc):
+                    # an ordering comparison / arithmetic with None is a TypeError at run time: the step raises
+                    run.violation(total_rule, fn.qual, f"{cls.name}.apply operands={label}",
+                                  f"apply() can compare or combine a stack value with None ({exc}): a TypeError that makes "
+                                  "FormulaEngine._run drop the round", node=fn.node, file=fn.file)
+                    break
+                raise
             any_nan = "N" in label
             for out, st in zip(outs, stacks):
                 inst = f"{cls.name}.apply operands={label or '-'} path={out.decisions}"
@@ -141,13 +158,14 @@ def check_steps(run: Run, prog: Program, drops_round: bool, total_rule: str = "C
                         run.ok(total_rule, inst + " (raises, but the engine emits None on error)")
                     continue
                 run.ok(total_rule, inst)
+                # stack effect: exactly the k operands replaced by one value (otherwise the evaluator's residual
+                # check raises and the round is dropped, too)
+                ok_stack = len(st) == 2 and st[0].expr == "SENTINEL"
+                run.check(ok_stack, total_rule if only_total else "C13.STACK", fn.qual, f"{cls.name}.apply stack effect",
+                          f"apply() leaves {len(st) - 1} value(s) for {k} operand(s) (must be "
+                          "exactly one)", node=fn.node, file=fn.file, instance=inst + " stack")
                 if only_total:
                     continue
-                # stack effect: exactly the k operands replaced by one value
-                ok_stack = len(st) == 2 and st[0].expr == "SENTINEL"
-                run.check(ok_stack, "C13.STACK", fn.qual, f"{cls.name}.apply stack effect",
-                          f"apply() leaves {len(st) - 1} value(s) for {k} operand(s) (must be "
-                          "exactly one)", node=fn.node, file=fn.file, instance=inst)
                 if not ok_stack:
                     continue
                 res = st[1]
@@ -224,7 +242,9 @@ def _result_stmt(fn: FuncInfo) -> str:
 
 
 # ---------------------------------------------------------------------------------------------
-def check_fetcher(run: Run, prog: Program) -> None:
+def check_fetcher(run: Run, prog: Program, rule: str = "C13.FETCH", only_total: bool = False) -> None:
+    """`only_total`: decide only "for every encoding of the stored sample apply() returns having pushed exactly
+    one value" under `rule` (C06 shares it: anything else drops the round, i.e. skips the timestamp)."""
     fn = prog.func(f"{STEPS}:MetricFetcher.apply")
     run.analysed(fn.qual)
     param = fn.params[1]
@@ -242,14 +262,27 @@ def check_fetcher(run: Run, prog: Program) -> None:
                 return {"self": Obj("self", _next_value=sample, _nones_are_zeros=naz,
                                     _name="m"), param: st}
 
-            outs = interp.explore(fn.node, make_args)
+            try:
+                outs = interp.explore(fn.node, make_args)
+            except AnalysisError as exc:
+                if kind == "none" and "attribute ." in str(exc):
+                    # the only thing without attributes in this scenario is the missing value itself
+                    cases += 1
+                    run.violation(rule, fn.qual, f"MetricFetcher.apply value={kind} nones_are_zeros={naz}",
+                                  f"apply() dereferences the missing value ({exc}): an AttributeError instead of a pushed "
+                                  "placeholder, so the round is dropped", node=fn.node, file=fn.file)
+                    continue
+                raise
             for out, st in zip(outs, stacks):
                 cases += 1
                 inst = f"MetricFetcher.apply value={kind} nones_are_zeros={naz}"
                 if out.kind != "return" or len(st) != 2:
-                    run.violation("C13.FETCH", fn.qual, inst,
+                    run.violation(rule, fn.qual, inst,
                                   f"apply() does not push exactly one value ({out.kind} "
                                   f"{out.value}, stack {len(st) - 1})", node=fn.node, file=fn.file)
+                    continue
+                if only_total:
+                    run.ok(rule, inst + " pushes one value")
                     continue
                 res = interp.lift(st[1])
                 missing = kind != "valid"
@@ -267,6 +300,8 @@ def check_fetcher(run: Run, prog: Program) -> None:
                           node=fn.node, file=fn.file, instance=inst)
     if cases < 8:
         raise AnalysisError("C13.FETCH: fewer than 8 fetcher cases interpreted")
+    if only_total:
+        return
     # no next value at all -> must not silently push
     interp = step_interp(prog, fn, lambda attr: [None])
     stacks2: list[list[Any]] = []
@@ -276,7 +311,12 @@ def check_fetcher(run: Run, prog: Program) -> None:
         stacks2.append(st)
         return {"self": Obj("self", _next_value=None, _nones_are_zeros=False, _name="m"), param: st}
 
-    outs = interp.explore(fn.node, make_none)
+    try:
+        outs = interp.explore(fn.node, make_none)
+    except AnalysisError as exc:
+        if "attribute ." not in str(exc):
+            raise
+        outs = []  # dereferencing the missing sample raises AttributeError: an error all the same
     run.check(all(o.kind == "raise" for o in outs), "C13.FETCH", fn.qual,
               "no fetched sample -> error", "apply() without a fetched sample pushes a value",
               node=fn.node, file=fn.file, instance="MetricFetcher.apply without fetched sample raises")
@@ -407,10 +447,10 @@ def check_output(run: Run, prog: Program) -> bool:
               node=fn.node, file=fn.file)
 
     # builders forward nones_are_zeros unchanged to every push_metric
-    n_push = 0
     for cname in ("HigherOrderFormulaBuilder", "HigherOrderFormulaBuilder3Phase"):
         b = prog.func(f"{ENGINE}:{cname}.build")
         run.analysed(b.qual)
+        n_push = 0
         for call in (x for x in body_walk(b.node) if isinstance(x, ast.Call)):
             if isinstance(call.func, ast.Attribute) and call.func.attr == "push_metric":
                 n_push += 1
@@ -418,8 +458,19 @@ def check_output(run: Run, prog: Program) -> bool:
                 run.check(kws.get("nones_are_zeros") == "nones_are_zeros", "C13.OUT", b.qual, call,
                           "push_metric is not given the builder's nones_are_zeros flag unchanged",
                           node=call, file=b.file)
-    if n_push < 2:
-        raise AnalysisError("C13.OUT: push_metric call sites in HO builders not found")
+        if "nones_are_zeros" not in b.params:
+            raise AnalysisError(f"{b.qual}: no nones_are_zeros parameter")
+        run.check(n_push > 0, "C13.OUT", b.qual, "build() pushes the metrics with the flag",
+                  "build() never pushes a metric: the inputs (and their missing-value setting) are lost",
+                  node=b.node, file=b.file)
+        # "counts as zero *on request*": missing values propagate unless the caller asks otherwise
+        a = b.node.args
+        dflt = dict(zip([x.arg for x in a.kwonlyargs], a.kw_defaults))
+        dflt.update(dict(zip([x.arg for x in (a.posonlyargs + a.args)][len(a.posonlyargs + a.args) - len(a.defaults):], a.defaults)))
+        d = dflt.get("nones_are_zeros")
+        run.check(d is None or (isinstance(d, ast.Constant) and d.value is False), "C13.OUT", b.qual,
+                  "nones_are_zeros defaults to False", "missing inputs count as zero by default (the property: only on request)",
+                  node=b.node, file=b.file)
 
     return engine_drops_round(run, prog)
 
@@ -495,7 +546,7 @@ def check_read(run: Run, prog: Program) -> None:
                                   "fetch_next(), which also stores the sample MetricFetcher.apply() pushes; reading the "
                                   "stream any other way leaves the stored sample stale for the next evaluation",
                                   node=x, file=m.file, instance=f"{m.qual}: fetcher.{x.attr} at a {n.kind} node #{uses}")
-    if uses < 2:
+    if uses < 1:
         raise AnalysisError(f"C13.READ: only {uses} uses of metric fetchers found in FormulaEvaluator")
     # nobody outside MetricFetcher consumes a fetcher's stream
     mfc = prog.cls(f"{STEPS}:MetricFetcher")
@@ -576,9 +627,39 @@ def build_controls(prog: Program) -> list[tuple[str, str, str, str, str]]:
     for c in calls_in(sy, lambda c: isinstance(c.func, ast.Attribute) and c.func.attr == "fetch_next")[:1]:
         txt, base = seg(sy.module, c), seg(sy.module, c.func.value)  # type: ignore[union-attr]
         add("synchronisation reads the raw stream", EVAL, stmt_patch(sy, c, lambda t: t.replace(txt, f"{base}.stream.receive()", 1)), "C13.READ")
+    # EMIT: the arrival test inverted (a complete round raises); OUT: missing values count as zero by default
+    for m in ev.methods.values():
+        hit = next((i for i in ast.walk(m.node) if isinstance(i, ast.If) and any(isinstance(b_, ast.Raise) for b_ in i.body)
+                    and any(isinstance(x, ast.Call) and u(x.func) in ("any", "all") for x in ast.walk(i.test))), None)
+        if hit is not None:
+            txt = seg(ev_mod, hit.test)
+            add("arrival test inverted", EVAL, src_patch(ev_mod, hit.lineno, hit.test.end_lineno or hit.lineno,
+                                                       lambda t, txt=txt: t.replace(txt, f"not ({txt})", 1)), "C13.EMIT")
+            break
+    a = b.node.args
+    for arg_, d_ in zip(a.kwonlyargs, a.kw_defaults):
+        if arg_.arg == "nones_are_zeros" and isinstance(d_, ast.Constant) and d_.value is False:
+            add("zeros by default", ENGINE, src_patch(b.module, d_.lineno, d_.end_lineno or d_.lineno,
+                                                      lambda t: t.replace("nones_are_zeros: bool = False", "nones_are_zeros: bool = True", 1)
+                                                      if "nones_are_zeros: bool = False" in t else t.replace("= False", "= True", 1)), "C13.OUT")
     if len(out) < 6:
-        raise AnalysisError(f"C13: only {len(out)} of 8 seeded controls could be derived from the source ({[o[0] for o in out]})")
+        raise AnalysisError(f"C13: only {len(out)} of 10 seeded controls could be derived from the source ({[o[0] for o in out]})")
     return out
+
+
+def check_emit(run: Run, prog: Program) -> None:
+    """C13.EMIT ("a sample is emitted for every input timestamp either way"): when every input delivered a
+    sample and the evaluation is well-formed apply() returns -- shared with C06.EMIT."""
+    from . import c06
+
+    c06.bind_sync(prog)
+    try:
+        rnd = c06.Round(prog)
+    except c06.RoundBroken as exc:
+        raw = prog.func(f"{EVAL}:FormulaEvaluator.apply")
+        run.violation("C13.EMIT", raw.qual, exc.what, exc.message, node=raw.node, file=raw.file)
+        return
+    c06.check_emit(run, prog, rnd, rule="C13.EMIT")
 
 
 def run_rules(run: Run, prog: Program) -> None:
@@ -586,6 +667,7 @@ def run_rules(run: Run, prog: Program) -> None:
     check_steps(run, prog, drops)
     check_fetcher(run, prog)
     check_read(run, prog)
+    check_emit(run, prog)
 
 
 def check(run: Run, prog: Program, tier: str) -> str:
@@ -598,12 +680,14 @@ def check(run: Run, prog: Program, tier: str) -> str:
              "missing otherwise, the base value otherwise; _is_value_valid agrees on 'missing'")
     run.rule("C13.OUT", "NaN/inf results map to Sample(ts, None), others through create_method; "
              "builders forward nones_are_zeros; every evaluated sample is sent")
+    run.rule("C13.EMIT", "a complete round (every input delivered, well-formed evaluation) makes apply() return a sample")
     run.rule("C13.UNDEF", "a dividing step pushes NaN when its divisor is zero (never +-inf, which enclosing "
              "steps absorb into finite numbers)")
     run.rule("C13.READ", "a metric fetcher's stream is advanced only through fetch_next() (which stores the "
              "sample apply() pushes)")
     run_rules(run, prog)
     run.floor("C13.UNDEF", 1)
+    run.floor("C13.EMIT", 2)
     run.floor("C13.READ", 3)
     run.floor("C13.NAN", 12)
     run.floor("C13.TOTAL", 20)
